@@ -631,7 +631,7 @@ def interval_terms(tier: str, seed: int) -> List[Tuple[str, Any]]:
         seqs = [s for i, s in enumerate(seqs) if i % 4 == 0]
     out += [("depth1-sequence", s) for s in seqs]
     # depth 2 and 3: seeded random terms
-    n2, n3 = (12000, 12000) if tier == "thorough" else (400, 400)
+    n2, n3 = (20000, 20000) if tier == "thorough" else (400, 400)
     out += [("depth2", gen_regex(rng, 2, base)) for _ in range(n2)]
     out += [("depth3", gen_regex(rng, 3, base)) for _ in range(n3)]
     return out
